@@ -35,6 +35,11 @@ def _plan(draw, max_rows):
     nl = draw(gen.nrows(max_rows))
     nr = draw(gen.nrows(max_rows))
     nk = draw(st.sampled_from([1, 1, 1, 2]))
+    huge = draw(st.integers(0, 24)) == 0
+    if huge:
+        # long operands (65 .. 2049 rows on either side): beyond any size threshold a fast path might use
+        nl = draw(st.sampled_from(gen.BIG_SIZES + gen.HUGE_SIZES[:3] + [3, 12]))
+        nr = draw(st.sampled_from(gen.BIG_SIZES + gen.HUGE_SIZES[:3] + [3, 12]))
     left, right, by = [], [], []
     mixed = draw(st.integers(0, 7)) == 0
     if mixed:
@@ -48,25 +53,28 @@ def _plan(draw, max_rows):
         by.append(["k0", rn])
     for j in range(0 if mixed else nk):
         kind = draw(st.sampled_from(KEY_KINDS))
-        mode = draw(st.sampled_from(["tight", "tight", "tight", "pool"]))
+        mode = draw(st.sampled_from(["tight", "tight", "tight", "pool", "twins"]))
         ln = f"k{j}"
         rn = ln if draw(st.integers(0, 2)) else f"r{j}"
-        left.append({"name": ln, "kind": kind, "vals": draw(gen.values(kind, nl, mode=mode, na="asis"))})
-        right.append({"name": rn, "kind": kind, "vals": draw(gen.values(kind, nr, mode=mode, na="asis"))})
+        vals_of = (lambda m: gen.big_values(kind, m, na="asis")) if huge else (lambda m: gen.values(kind, m, mode=mode, na="asis"))
+        left.append({"name": ln, "kind": kind, "vals": draw(vals_of(nl))})
+        right.append({"name": rn, "kind": kind, "vals": draw(vals_of(nr))})
         by.append([ln, rn])
-        if rn != ln and draw(st.integers(0, 2)) == 0:
+        if rn != ln and draw(st.integers(0, 2)) == 0 and not huge:
             # the right frame owns an ordinary column named like the left key (after its real key)
             right.append({"name": ln, "kind": kind, "vals": draw(gen.values(kind, nr, mode=mode, na="asis"))})
     for j in range(draw(st.integers(0, 2))):
         kind = draw(st.sampled_from(PAY_KINDS))
-        left.append({"name": f"a{j}", "kind": kind, "vals": draw(gen.values(kind, nl))})
-    for j in range(draw(st.integers(0, 2))):
+        left.append({"name": f"a{j}", "kind": kind, "vals": draw(gen.big_values(kind, nl, na="asis") if huge else gen.values(kind, nl))})
+    for j in range(0 if huge else draw(st.integers(0, 2))):
         kind = draw(st.sampled_from(PAY_KINDS))
         name = f"b{j}" if draw(st.integers(0, 4)) else f"a{j}"   # occasional collision with a left payload name
         same = [c for c in left if c["name"] == name]
         if same:
             kind = same[0]["kind"]     # colliding columns of different kinds are outside the statement
         right.append({"name": name, "kind": kind, "vals": draw(gen.values(kind, nr))})
+    if huge:
+        right.append({"name": "b0", "kind": "i", "vals": [(i * 7) % 1000 for i in range(nr)]})
     right = [right[i] for i in draw(st.permutations(range(len(right))))]
     plan = {"left": {"n": nl, "cols": left}, "right": {"n": nr, "cols": right}, "by": by,
             "op": draw(st.sampled_from(OPS))}
@@ -185,6 +193,8 @@ def _check_join(plan, L, R, ctx):
     ctx.cls(f"keys_{len(plan['by'])}", *("keykind_" + c["kind"] for c in plan["left"]["cols"] if c["name"] in by1))
     if plan.get("mixed"):
         ctx.cls("key_dtypes_differ_between_sides")
+    if max(nl, nr) >= 65:
+        ctx.cls("operand_of_65_rows_or_more", "operand_of_513_rows_or_more" if max(nl, nr) >= 513 else "operand_65_to_512")
     if any(a != b for a, b in plan["by"]):
         ctx.cls("key_names_differ")
         if any(a in rs for a, b in plan["by"] if a != b):
